@@ -445,6 +445,27 @@ func (v *View) addImpliedFacts(n, before factSet) {
 	}
 }
 
+// successFactsAt: what is known when the function succeeds through ret. When ret hands back
+// the result of a first-party helper (`return finalChecks(...)`), success means that the
+// helper returned nil, which establishes the helper's guard summary over its arguments.
+func (v *View) successFactsAt(ret *ssa.Return) factSet {
+	base := v.FactsAt(ret.Block())
+	if len(ret.Results) == 0 {
+		return base
+	}
+	call, ok := ret.Results[len(ret.Results)-1].(*ssa.Call)
+	if !ok {
+		return base
+	}
+	if h := call.Common().StaticCallee(); h == nil || !v.P.isFirstParty(h) {
+		return base
+	}
+	n := base.clone()
+	n[fact{call, factNil}] = true
+	v.addImpliedFacts(n, base)
+	return n
+}
+
 func (v *View) computeFacts() {
 	if v.factsDone {
 		return
